@@ -1093,6 +1093,25 @@ impl<'a> Gen<'a> {
                 (format!("for {} in range(end={})", v, self.rng.pick(&["n_small", "3", "0", "5"])), 6)
             }
             _ if self.rng.chance(1, 4) => {
+                // the less common iterables and targets: pairs out of arrays / strings, single
+                // variables out of bytes / numbers / none, a variable shadowing its own iterable
+                let k = format!("k{}", env.depth);
+                inner.vars.push((k.clone(), Kind::Any));
+                inner.vars.push((v.clone(), Kind::Any));
+                let head = match self.rng.below(9) {
+                    0 => format!("for {}, {} in [[1, 2], [3, 4]]", k, v),
+                    1 => format!("for {}, {} in [1, [2], \"ab\", {{}}]", k, v),
+                    2 => format!("for {}, {} in arr_i", k, v),
+                    3 => format!("for {}, {} in s_uni", k, v),
+                    4 => format!("for {} in byt", v),
+                    5 => format!("for {} in {}", v, self.rng.pick(&["n_int", "none_v", "b_t", "n_f", "none", "true", "1.5"])),
+                    6 => "for arr_i in arr_i".to_string(),
+                    7 => format!("for {}, {} in {{1: 2, true: 3, \"a\": 4}}", k, v),
+                    _ => format!("for {}, {} in mm", k, v),
+                };
+                (head, 40)
+            }
+            _ if self.rng.chance(1, 3) => {
                 // `loop.*` in the iterable itself: refers to the enclosing loop, or to nothing
                 inner.vars.push((v.clone(), Kind::Any));
                 let it = self.rng.pick(&["loop.index", "arr_i[loop.index0:]", "[y for y in arr_i if y > loop.length]", "range(end=loop.length)", "[loop.first, loop.last]", "s_any[:loop.index]"]);
